@@ -198,10 +198,13 @@ def parseChunk (kind : Kind) (chunk : List Str) : Except Err Table :=
       | .error e => .error e
       | .ok m => .ok ⟨some m, kind, raw⟩
 
-/-- `NONMEMTableFile(path, notitle=…)` on the lines of the file. -/
-def parseFile (kind : Kind) (notitle : Bool) (lines : List Str) : Except Err (List Table) :=
+/-- `NONMEMTableFile(path, notitle=…, nolabel=…)` on the lines of the file.  `nolabel` reaches
+    `_parse_table` only on the `notitle` path (the loop over `TABLE NO.` chunks calls
+    `_parse_table(current, suffix)`), where the generic table is then read without a header. -/
+def parseFile (kind : Kind) (notitle nolabel : Bool) (lines : List Str) : Except Err (List Table) :=
   if notitle then
-    match readFrame (dropRepeatedHeaders lines) with
+    let content := dropRepeatedHeaders lines
+    match (if nolabel then readFrameNoHeader content else readFrame content) with
     | .error e => .error e
     | .ok raw => .ok [⟨none, .generic, raw⟩]
   else (splitTables lines).mapM (parseChunk kind)
